@@ -427,9 +427,9 @@ def run(ctx):
     if chk is None or lastf is None:
         ctx.missing('R06.1', 'anchor:check', 'ordering check or last-key field not found')
         return
-    r06_1_2_3(ctx, A, chk, lastf)
-    r06_3_dominance(ctx, A, chk, add, ins)
-    r06_4(ctx, A, chk)
-    r06_5(ctx, A, add, ins)
-    r06_6(ctx, A, chk)
+    ctx.step(r06_1_2_3, ctx, A, chk, lastf)
+    ctx.step(r06_3_dominance, ctx, A, chk, add, ins)
+    ctx.step(r06_4, ctx, A, chk)
+    ctx.step(r06_5, ctx, A, add, ins)
+    ctx.step(r06_6, ctx, A, chk)
     ctx.notes.append({'ordering_check': chk.path, 'last_key_field': lastf})
